@@ -312,7 +312,9 @@ func runSpec(a *app.Teleport, base sdk.Context, s Spec) Result {
 		var val string
 		if s.Full {
 			// end the current block and begin the next one: app.BeginBlock runs every module's BeginBlocker
-			p, val = hlib.Catch(func() { coord.CommitBlock(chain) })
+			// (not coord.CommitBlock: the coordinator's IncrementTime calls BeginBlock a second time for the same
+			// height, which is an artefact of the test coordinator, not of the chain)
+			p, val = hlib.Catch(func() { chain.App.Commit(); chain.NextBlock() })
 			ctx = chain.GetContext()
 		} else {
 			p, val = hlib.Catch(func() { rvesting.BeginBlocker(ctx, a.RVestingKeeper) })
